@@ -214,7 +214,7 @@ def strat(tier):
 
 
 SUBS = [
-    Sub("episodes", execute, strategy=strat, budget={"quick": 4500, "thorough": 50000}, shards=16),
-    Sub("ffsp_multistart", execute_ffsp_multistart, strategy=strat_ffsp_multistart, budget={"quick": 640, "thorough": 8000}, shards=16),
+    Sub("episodes", execute, strategy=strat, budget={"quick": 8992, "thorough": 50000}, shards=16),
+    Sub("ffsp_multistart", execute_ffsp_multistart, strategy=strat_ffsp_multistart, budget={"quick": 1280, "thorough": 8000}, shards=16),
 ]
 TIME_CAP = {"quick": 400, "thorough": 3000}
